@@ -12,8 +12,8 @@ the collection loop consumes every pending reply or returns an error; all_shards
 `hash % len` selects the same shard id in every process lifetime (no completion-order collection).
 Not decided: stability of DefaultHasher's algorithm across Rust releases (documented unspecified; assumption).
 """
-FLOOR = 8
-REQUIRED = ["C12.a", "C12.b", "C12.c1", "C12.c2", "C12.c3", "C12.c4", "C12.c5", "C12.d"]
+FLOOR = 9
+REQUIRED = ["C12.a", "C12.b", "C12.c1", "C12.c2", "C12.c3", "C12.c4", "C12.c5", "C12.d", "C12.e"]
 ASSUMPTIONS = ["std::collections::hash_map::DefaultHasher::new() is SipHash-1-3 with fixed zero keys in every build of the same toolchain"]
 
 NONDET = re.compile(r"(RandomState::new|RandomState::default|ahash::RandomState|ahash::AHasher::default|rand::|fastrand::|getrandom|SystemTime::now|Instant::now|thread::current|ThreadId|thread_rng|process::id|Uuid::new)")
@@ -135,6 +135,42 @@ def run(ctx):
             others = sorted(x for x in extra if x != ctx_arg)
             if others or ctx_arg is None or not (R.find_calls(r"ShardManager::get_shard$") or ctx_arg in extra):
                 bad.append(("route-key", "STORE routes through %s, which hashes %s: events of one context land on different shards while reads and REPLAY order assume one shard per context" % (rname.split("::")[-1], sorted(extra) or "?"), None))
+        EXACT_TEXT = re.compile(TRANSPARENT.pattern.replace("(as_bytes|trim|trim_start|trim_end)", "(as_bytes)"))
+        assert EXACT_TEXT.pattern != TRANSPARENT.pattern
+
+        def key_leaves(body_, op_, depth_):
+            """provenance of a routing key through crate helpers and value-preserving Option adaptors"""
+            out_ = set()
+            for l_ in body_.origins(op_, transparent=EXACT_TEXT):
+                if l_[0] == "call" and depth_ > 0:
+                    cc = body_.call_at(l_[2])
+                    if cc is not None and re.search(r"Option::(filter|as_deref|as_ref|cloned|copied|or|or_else|unwrap_or\w*)$", norm_path(cc.nname)):
+                        out_ |= key_leaves(body_, cc.args[0], depth_ - 1)
+                        continue
+                    if cc is not None and cc.callee and F.has(cc.callee):
+                        out_ |= key_leaves(F.fn_exact(cc.callee), {"c": [0]}, depth_ - 1)
+                        continue
+                if l_[0] == "agg" and l_[1].endswith("Option::Some") and depth_ > 0:
+                    inner = [v_["o"][0] for (bb_, j_, v_, d_) in body_.aggregates("option::Option", "Some") if bb_ == l_[2]]
+                    if inner:
+                        for op2 in inner:
+                            out_ |= key_leaves(body_, op2, depth_ - 1)
+                        continue
+                out_.add(l_)
+            return out_
+        # every other caller of get_shard looks a context up: it must hash the id STORE hashed, not a normalised form
+        ncall = 0
+        for k in F.keys():
+            if k.startswith("bin:") or "_test" in k or "::tests::" in k or k == st.key:
+                continue
+            ob = F.fn_exact(k)
+            for gc in ob.find_calls(r"ShardManager::get_shard$"):
+                ncall += 1
+                Lk = key_leaves(ob, gc.args[1], 4)
+                tr = [l for l in Lk if l[0] == "call" and re.search(r"str::(trim\w*|to_lowercase|to_uppercase|to_ascii_\w+|replace\w*|strip_\w+)$|String::(to_lowercase|to_uppercase)$", norm_path(l[1]))]
+                if tr:
+                    bad.append(("lookup-by-normalised-id:%s" % k.split("::{")[0].split("::")[-1], "%s looks a context's shard up with get_shard(%s) while STORE routes by the id as given: a context id that the normalisation changes is searched on a shard that does not hold it" % (k.split("::{")[0], fmt_leaves(tr)), sp(ob, gc.bb)))
+        inst.sites.append("other get_shard callers: %d" % ncall)
         inst.detail = "bodies/leaves reachable from get_shard: %d" % len(seen)
         return bad
     ctx.run("C12.a", "K4 EFFECT + K7", "ShardManager::get_shard", "routing is a deterministic function of the context id and the shard count", a)
@@ -270,3 +306,28 @@ def run(ctx):
             bad.append(("completion-order", "shards are collected in completion order", None))
         return bad
     ctx.run("C12.d", "K7 PROV + K9", "ShardManager::new", "slot i of the shard vector is shard id i", d_)
+
+    def e_(inst):
+        # a shard answers with a stream of batches: every consumer in the command handlers reads its stream
+        # until it ends (after a batch, the same recv is reached again without switching to another stream)
+        bad, n = [], 0
+        for k in F.keys():
+            if k.startswith("bin:") or "_test" in k or "::tests::" in k or not re.search(r"command::handlers::(query|show|compare|replay)", k):
+                continue
+            b = F.fn_exact(k)
+            for c in b.calls:
+                if c.cleanup or not re.search(r"(Receiver|QueryBatchStream|UnboundedReceiver)::recv$", c.nname):
+                    continue
+                es = [e for (e, v) in ok_edges(b, c) if v == "Some"]
+                if not es:
+                    continue        # a forwarding wrapper: the caller tests the result
+                n += 1
+                short = k.split("handlers::")[-1].split("::{closure")[0]
+                inst.sites.append(sp(b, c.bb) + " " + short.split("::")[-1])
+                cut = [l[2] for l in b.origins(c.args[0]) if l[0] == "call"]
+                if not any(c.bb in b.reach(e[1], cut_blocks=cut) for e in es):
+                    bad.append(("stream-read-once:%s" % short, "%s takes one batch from a stream and does not come back for the next: a shard that answers in several batches (memtable and segments, or more groups than one batch holds) contributes only its first" % short, sp(b, c.bb)))
+        if n < 8:
+            raise AnchorMissing("batch-stream consumers in command::handlers (found %d, 9 counted)" % n)
+        return bad
+    ctx.run("C12.e", "K9 LOOP", "batch-stream consumers (mergers, response writers, delta refresher)", "every batch a shard sends is consumed", e_)
